@@ -456,6 +456,7 @@ def run_coq_cases(cid, name, header, cases, shard=300, timeout=900, jobs=8, _ret
     if failed and not _retry:
         # a shard killed by the machine (memory pressure when many checks run side by side) or timed out is not a
         # verdict: run the whole set once more with two processes; a deterministic Coq error fails again
+        time.sleep(15)
         res2, log2 = run_coq_cases(cid, name, header, cases, shard=shard, timeout=timeout, jobs=2, _retry=True)
         if res2 is not None:
             return res2, log2 + " (after one retry with 2 processes: %s)" % "; ".join(l[:120] for l in log)[:400]
